@@ -397,6 +397,10 @@ fn coverage_fields(out: &mut Vec<Field>, d: &[u8], cov: usize, prefix: &str) {
     f(out, &format!("{}.coverage.count", prefix), cov + 2, 2, d.len());
     f(out, &format!("{}.coverage.first", prefix), cov + 4, 2, d.len());
     f(out, &format!("{}.coverage.second", prefix), cov + 6, 2, d.len());
+    // format 2: first range = (start, end, startCoverageIndex); then the second range
+    f(out, &format!("{}.coverage.startCoverageIndex", prefix), cov + 8, 2, d.len());
+    f(out, &format!("{}.coverage.range1.start", prefix), cov + 10, 2, d.len());
+    f(out, &format!("{}.coverage.range1.startCoverageIndex", prefix), cov + 14, 2, d.len());
 }
 
 fn layout_fields(out: &mut Vec<Field>, d: &[u8], rng: &mut Rng, t: &str) {
